@@ -76,6 +76,7 @@ package vuego
 //@   ensures C12.prefix: hasPrefix(out(w), old(out(w)))
 //@   ensures C12.reported: failed(w) && !old(failed(w)) ==> err != nil
 //@   ensures C12.complete: err == nil ==> failed(w) == old(failed(w))
+//@   ensures C12.err.writer: err != nil ==> failed(w)
 //@   ensures C01+C02.text.exact: node.Type == html.TextNode && !rawParent(ctx) && err == nil ==>
 //@     out(w) == old(out(w)) + textOut(node.Data, indent)
 //@   ensures C02.doctype: node.Type == html.DoctypeNode && err == nil ==> out(w) == old(out(w)) + "<!DOCTYPE " + node.Data + ">\n"
@@ -156,3 +157,84 @@ package vuego
 //@   modifies nothing
 //@   ensures C17.copy.fresh: fresh(c) && len(c.stack) == 1 && fresh(c.stack[0]) && c.rootData == s.rootData
 //@   ensures C17.copy.equal: forall k string :: ((k in c.stack[0]) == envHas(s, k, len(s.stack))) && ((k in c.stack[0]) ==> c.stack[0][k] == envGet(s, k, len(s.stack)))
+
+// ---- all-or-nothing output (C12) ----
+
+//@ func renderNode(w, node, indent) (err)
+//@   modifies out(w), failed(w)
+//@   ensures C12.prefix: hasPrefix(out(w), old(out(w)))
+//@   ensures C12.reported: failed(w) && !old(failed(w)) ==> err != nil
+//@   ensures C12.complete: err == nil ==> failed(w) == old(failed(w))
+//@   ensures C12.err.writer: err != nil ==> failed(w)
+
+//@ func (v *Vue) render(w, nodes) (err)
+//@   modifies out(w), failed(w)
+//@   ensures C12.reported: failed(w) && !old(failed(w)) ==> err != nil
+//@   ensures C12.complete: err == nil ==> failed(w) == old(failed(w))
+//@   ensures C12.err.writer: err != nil ==> failed(w)
+//@   loop 0 invariant C12.loop: failed(w) == old(failed(w))
+
+//@ func (v *Vue) renderNodesWithContext(ctx, w, nodes) (err)
+//@   ensures C12.nothing: err != nil && !failed(w) ==> out(w) == old(out(w))
+//@   ensures C12.reported: failed(w) && !old(failed(w)) ==> err != nil
+//@   ensures C12.complete: err == nil ==> failed(w) == old(failed(w))
+
+//@ func (v *Vue) Render(w, filename, data) (err)
+//@   ensures C12.nothing: err != nil && !failed(w) ==> out(w) == old(out(w))
+//@   ensures C12.reported: failed(w) && !old(failed(w)) ==> err != nil
+//@   ensures C12.complete: err == nil ==> failed(w) == old(failed(w))
+
+//@ func (v *Vue) RenderFragment(w, filename, data) (err)
+//@   ensures C12.nothing: err != nil && !failed(w) ==> out(w) == old(out(w))
+//@   ensures C12.reported: failed(w) && !old(failed(w)) ==> err != nil
+//@   ensures C12.complete: err == nil ==> failed(w) == old(failed(w))
+
+//@ func (v *Vue) RenderNodes(w, nodes, data) (err)
+//@   ensures C12.nothing: err != nil && !failed(w) ==> out(w) == old(out(w))
+//@   ensures C12.reported: failed(w) && !old(failed(w)) ==> err != nil
+//@   ensures C12.complete: err == nil ==> failed(w) == old(failed(w))
+
+//@ func (t *template) renderWithoutLayout(ctx, w) (err)
+//@   ensures C12.nothing: err != nil && !failed(w) ==> out(w) == old(out(w))
+//@   ensures C12.reported: failed(w) && !old(failed(w)) ==> err != nil
+//@   ensures C12.complete: err == nil ==> failed(w) == old(failed(w))
+
+//@ func (t *template) RenderReader(ctx, w, r) (err)
+//@   ensures C12.nothing: err != nil && !failed(w) ==> out(w) == old(out(w))
+//@   ensures C12.reported: failed(w) && !old(failed(w)) ==> err != nil
+//@   ensures C12.complete: err == nil ==> failed(w) == old(failed(w))
+
+//@ func (t *template) RenderByte(ctx, w, templateData) (err)
+//@   ensures C12.nothing: err != nil && !failed(w) ==> out(w) == old(out(w))
+//@   ensures C12.reported: failed(w) && !old(failed(w)) ==> err != nil
+//@   ensures C12.complete: err == nil ==> failed(w) == old(failed(w))
+
+//@ func (t *template) RenderString(ctx, w, templateStr) (err)
+//@   ensures C12.nothing: err != nil && !failed(w) ==> out(w) == old(out(w))
+//@   ensures C12.reported: failed(w) && !old(failed(w)) ==> err != nil
+//@   ensures C12.complete: err == nil ==> failed(w) == old(failed(w))
+
+//@ func (t *template) layout(ctx, w) (err)
+//@   ensures C12.nothing: err != nil && !failed(w) ==> out(w) == old(out(w))
+//@   ensures C12.reported: failed(w) && !old(failed(w)) ==> err != nil
+//@   ensures C12.complete: err == nil ==> failed(w) == old(failed(w))
+//@   loop 0 invariant C07+C12.w.untouched: out(w) == old(out(w)) && failed(w) == old(failed(w))
+//@   loop 0 invariant C07.depth: 0 <= depth && depth <= maxDepth && maxDepth == 100
+//@   loop 0 decreases C07+C11.chain.ends: maxDepth - depth
+
+//@ func (t *template) Render(ctx, w) (err)
+//@   ensures C12.nothing: err != nil && !failed(w) ==> out(w) == old(out(w))
+//@   ensures C12.reported: failed(w) && !old(failed(w)) ==> err != nil
+//@   ensures C12.complete: err == nil ==> failed(w) == old(failed(w))
+
+//@ func (t *template) RenderFile(ctx, w, filename) (err)
+//@   ensures C12.nothing: err != nil && !failed(w) ==> out(w) == old(out(w))
+//@   ensures C12.reported: failed(w) && !old(failed(w)) ==> err != nil
+//@   ensures C12.complete: err == nil ==> failed(w) == old(failed(w))
+
+// Interface contract of Template.Render: its only implementation, (*template).Render, is verified against the same clauses.
+//@ func (t Template) Render(ctx, w) (err)
+//@   trusted
+//@   ensures C12.nothing: err != nil && !failed(w) ==> out(w) == old(out(w))
+//@   ensures C12.reported: failed(w) && !old(failed(w)) ==> err != nil
+//@   ensures C12.complete: err == nil ==> failed(w) == old(failed(w))
